@@ -1043,6 +1043,12 @@ func (e *Env) evalCall(n *ast.CallExpr, hint types.Type) SV {
 					efail("argument %d of %s: sort mismatch %s vs %s", i, name, typeKey(v.ty), typeKey(pt))
 				}
 			}
+			if _, isPtr := pt.Underlying().(*types.Pointer); isPtr && len(v.l) == 1 && v.p != nil && len(v.p.steps) > 0 {
+				// an interior pointer (&s[i].f): its identity is the base reference together with the path;
+				// passing the base alone would identify &a[0].x and &a[1].x
+				args = append(args, interiorPtrTerm(v))
+				continue
+			}
 			args = append(args, v.l...)
 		}
 		if ai != len(n.Args) {
@@ -1191,4 +1197,20 @@ func seqElemSorts(ty types.Type) []*Sort {
 		return nil
 	}
 	return out
+}
+
+// interiorPtrTerm gives an interior pointer a term of its own: uninterpreted functions of the base
+// reference and each step of the path (equal paths give equal terms; different paths are not forced apart).
+func interiorPtrTerm(v SV) *Term {
+	t := v.l[0]
+	fld := declUF("iptr.field", []*Sort{RefS, I64}, RefS)
+	idx := declUF("iptr.index", []*Sort{RefS, I64}, RefS)
+	for _, s := range v.p.steps {
+		if s.field >= 0 {
+			t = App(fld, t, mkBV(int64(s.field), 64))
+		} else {
+			t = App(idx, t, s.idx)
+		}
+	}
+	return t
 }
